@@ -16,8 +16,9 @@ def kvN (f : List String) (k : String) : Nat := nat (kvS f k)
 
 structure St where
   f : List String                     -- the case line fields (structured settings)
-  bytes : Array Nat := #[]
+  bytes : Array Nat := #[]            -- bytes of the current connection
   reqOffsets : List Nat := []         -- byte offsets at which a test recording was requested (reversed)
+  prev : List (Array Nat × List Nat) := []   -- earlier connections of this case (reversed): bytes, request offsets
   dead : Bool := false
 
 def init (f : List String) : St := { f := f }
@@ -40,7 +41,16 @@ def hdrOf (text : List Nat) : Hdr :=
     fsize := Yaml.getInt m "FrameSize", brand := Yaml.getStr m "Brand", model := Yaml.getStr m "Model",
     serial := Yaml.getInt m "CameraSerial", firmware := Yaml.getStr m "Firmware" }
 
-def cfgOf (f : List String) (h : Hdr) : PipeCfg :=
+/-- go-config's `DefaultThermalMotion(model)`: used when config.toml has no [thermal-motion] section -/
+def motionKv (f : List String) (model : String) : List String :=
+  if kvN f "motiondefaults" == 1 then
+    (if model == "lepton3.5" then ["thresh=28000", "delta=200"] else ["thresh=2900", "delta=50"]) ++
+    ["dyn=1", "tmin=0", "tmax=0", "count=3", "gap=45", "one=1", "trig=2", "warmer=1", "edge=1"] ++
+    f.filter fun s => !(["thresh=", "delta=", "dyn=", "tmin=", "tmax=", "count=", "gap=", "one=", "trig=", "warmer=", "edge="].any (s.startsWith ·))
+  else f
+
+def cfgOf (f0 : List String) (h : Hdr) : PipeCfg :=
+  let f := motionKv f0 h.model
   let det : DCfg :=
     { resX := h.resx, resY := h.resy, edge := kvN f "edge", gap := kvN f "gap", useOneDiff := kvN f "one" == 1,
       deltaThresh := kvN f "delta", countThresh := kvN f "count", tempThresh := kvN f "thresh",
@@ -54,7 +64,8 @@ def cfgOf (f : List String) (h : Hdr) : PipeCfg :=
     throttle := kvN f "throttle" == 1, bucketFrames := kvN f "bucketsecs" * h.fps,
     minLenFrames := (kvN f "min" + kvN f "preview") * h.fps }
 
-def motionYaml (f : List String) (thresh : Nat) : String :=
+def motionYaml (f0 : List String) (model : String) (thresh : Nat) : String :=
+  let f := motionKv f0 model
   let b (k : String) : String := if kvN f k == 1 then "true" else "false"
   s!"dynamicthreshold: {b "dyn"}\ntempthreshmin: {kvN f "tmin"}\ntempthreshmax: {kvN f "tmax"}\ntempthresh: {kvN f "thresh"}\n" ++
   s!"deltathresh: {kvN f "delta"}\ncountthresh: {kvN f "count"}\nframecomparegap: {kvN f "gap"}\nuseonediffonly: {b "one"}\n" ++
@@ -117,7 +128,7 @@ def fileLines (f : List String) (h : Hdr) (label : String) (k : Nat) (fl : RecFi
   let nframes := fl.frames.length + 1
   let head := s!"file {label} {k} device={kvS f "devname"} id={kvN f "devid"} serial={h.serial} firmware={hexStr h.firmware} " ++
     s!"brand={hexStr h.brand} model={hexStr h.model} fps={h.fps} preview={kvN f "preview"} lat={kvN f "lat"} lon={kvN f "lon"} " ++
-    s!"alt={kvN f "alt"} acc={kvN f "acc"} resx={h.resx} resy={h.resy} hasbg={hasBg} nframes={nframes} motion={hexStr (motionYaml f fl.thresh)}"
+    s!"alt={kvN f "alt"} acc={kvN f "acc"} resx={h.resx} resy={h.resy} hasbg={hasBg} nframes={nframes} motion={hexStr (motionYaml f h.model fl.thresh)}"
   let bgLine := s!"fr {label} {k} 0 bg=1 ton=0 lffc=0 t=0 tl=0 pix={pixHex bg}"
   let frames := (List.range fl.frames.length).zip fl.frames |>.map fun (i, id) =>
     match frozen[id]? with
@@ -127,15 +138,24 @@ def fileLines (f : List String) (h : Hdr) (label : String) (k : Nat) (fl : RecFi
     | none => s!"fr {label} {k} {i + 1} missing"
   head :: bgLine :: frames
 
-def finish (st : St) : List String :=
-  match Socket.readHeader st.bytes.toList with
-  | none => ["conn error", "header none", "dir main finished=0 unfinished=0", "dir const finished=0 unfinished=0"]
+structure ConnOut where
+  lines : List String                 -- conn / header lines
+  mainFiles : List (List String → Nat → List String)    -- given (label, k) produce lines
+  constFiles : List (List String → Nat → List String)
+  unfinishedMain : Nat
+  unfinishedConst : Nat
+
+/-- one camera connection: how it ends, the camera it announced, the finished files it leaves -/
+def runConn (f : List String) (bytes : Array Nat) (reqOffsets : List Nat) : ConnOut :=
+  match Socket.readHeader bytes.toList with
+  | none => { lines := ["conn header-error true", "header none"], mainFiles := [], constFiles := [],
+              unfinishedMain := 0, unfinishedConst := 0 }
   | some (text, rest) =>
     let h := hdrOf text
-    let c := cfgOf st.f h
+    let c := cfgOf f h
     let (items, ending) := Socket.parseFrames h.fsize (rest.length + 2) rest
-    let hdrLen := st.bytes.size - rest.length
-    let reqs := st.reqOffsets.reverse.map (· - hdrLen)
+    let hdrLen := bytes.size - rest.length
+    let reqs := reqOffsets.reverse.map (· - hdrLen)
     let (p, frozen, bgs) := runItems c items reqs h.fsize
     let files := p.files.reverse
     let idx := (List.range files.length).zip files
@@ -147,17 +167,31 @@ def finish (st : St) : List String :=
     let conn := match ending with | .eofAtBoundary => "conn eof" | .truncated => "conn truncated"
     let hdrLine := s!"header resx={h.resx} resy={h.resy} fps={h.fps} framesize={h.fsize} brand={hexStr h.brand} " ++
       s!"model={hexStr h.model} serial={h.serial} firmware={hexStr h.firmware}"
-    let mainLines := ((List.range mainDone.length).zip mainDone).flatMap fun (k, (i, fl)) =>
-      fileLines st.f h "main" k fl (bgs.getD i #[]) frozen c.lepton
-    let constLines := ((List.range constDone.length).zip constDone).flatMap fun (k, (i, fl)) =>
-      fileLines st.f h "const" k fl (bgs.getD i #[]) frozen c.lepton
-    [conn, hdrLine, s!"dir main finished={mainDone.length} unfinished={2 * testOpen}"] ++ mainLines ++
-    [s!"dir const finished={constDone.length} unfinished={2 * constOpen}"] ++ constLines
+    { lines := [conn, hdrLine],
+      mainFiles := mainDone.map fun (i, fl) => fun lab k => fileLines f h (lab.headD "main") k fl (bgs.getD i #[]) frozen c.lepton,
+      constFiles := constDone.map fun (i, fl) => fun lab k => fileLines f h (lab.headD "const") k fl (bgs.getD i #[]) frozen c.lepton,
+      unfinishedMain := 2 * testOpen, unfinishedConst := 2 * constOpen }
+
+/-- the whole case: every connection in order; files of all connections accumulate in the output directory -/
+def finish (st : St) : List String :=
+  let conns := (st.prev.reverse ++ [(st.bytes, st.reqOffsets)]).map fun (b, r) => runConn st.f b r
+  let last := conns.getLast?.map (·.lines) |>.getD []
+  let mains := conns.flatMap (·.mainFiles)
+  let consts := conns.flatMap (·.constFiles)
+  let um := (conns.map (·.unfinishedMain)).foldl (· + ·) 0
+  let uc := (conns.map (·.unfinishedConst)).foldl (· + ·) 0
+  last ++ [s!"dir main finished={mains.length} unfinished={um}"] ++
+  ((List.range mains.length).zip mains).flatMap (fun (k, g) => g ["main"] k) ++
+  [s!"dir const finished={consts.length} unfinished={uc}"] ++
+  ((List.range consts.length).zip consts).flatMap (fun (k, g) => g ["const"] k)
 
 def step (st : St) (bl : Block) : St × List String :=
   match bl.op with
   | ["b", _, hex] => ({ st with bytes := st.bytes ++ WriterStream.parseHexBytes hex }, [])
   | ["t"] => ({ st with reqOffsets := st.bytes.size :: st.reqOffsets }, [])
+  | ["n"] =>
+    let out := (runConn st.f st.bytes st.reqOffsets).lines
+    ({ st with prev := (st.bytes, st.reqOffsets) :: st.prev, bytes := #[], reqOffsets := [] }, out)
   | ["end"] => (st, finish st)
   | _ => (st, ["bad-op"])
 
@@ -200,7 +234,17 @@ def monStep (m : MSt) (bl : Block) : MSt × List String :=
     let m' := { m with st := st', files := nfiles, frames := nfr }
     match firstDiff exp got with
     | none => (m', [])
-    | some (e, g) => (m', [classify (if e.isEmpty then g else e) g])
+    | some (e, g) =>
+      let c := classify (if e.isEmpty then g else e) g
+      -- with the throttle on, what reaches storage is decided by the bucket size and the minimum clip
+      -- length (min-secs + preview-secs) the daemon hands to the throttle: a difference is C05's as well
+      let thr := if kvN m.st.f "throttle" == 1 && !c.startsWith "prop=C14"
+        then ["prop=C05 reason=throttled-recordings-differ-from-bucket-and-minimum-length-formulas"] else []
+      (m', c :: thr)
+  | ["n"] =>
+    let exp := ((runConn m.st.f m.st.bytes m.st.reqOffsets).lines).map fields
+    if exp == bl.outs then ({ m with st := st' }, [])
+    else ({ m with st := st' }, [classify (exp.headD []) []])
   | _ => ({ m with st := st' }, [])
 
 def monFinish (m : MSt) : List String :=
